@@ -1,6 +1,8 @@
 package types
 
 import (
+	"bytes"
+	"encoding/json"
 	"fmt"
 	"github.com/f1bonacc1/process-compose/src/command"
 	"github.com/f1bonacc1/process-compose/src/health"
@@ -106,7 +108,7 @@ func (p *ProcessConfig) Compare(another *ProcessConfig) bool {
 		!reflect.DeepEqual(p.LivenessProbe, another.LivenessProbe) ||
 		!reflect.DeepEqual(p.ReadinessProbe, another.ReadinessProbe) ||
 		!reflect.DeepEqual(p.ShutDownParams, another.ShutDownParams) ||
-		!reflect.DeepEqual(p.Vars, another.Vars) ||
+		!varsEqual(p.Vars, another.Vars) ||
 		!reflect.DeepEqual(p.Extensions, another.Extensions) ||
 		!reflect.DeepEqual(p.DependsOn, another.DependsOn) ||
 		!reflect.DeepEqual(p.RestartPolicy, another.RestartPolicy) ||
@@ -119,6 +121,18 @@ func (p *ProcessConfig) Compare(another *ProcessConfig) bool {
 
 	return true
 }
+
+// varsEqual compares variables by value: a configuration that travelled
+// through the REST API carries its numbers as float64 (1.0 for 1)
+func varsEqual(a, b Vars) bool {
+	if reflect.DeepEqual(a, b) {
+		return true
+	}
+	aJson, errA := json.Marshal(a)
+	bJson, errB := json.Marshal(b)
+	return errA == nil && errB == nil && bytes.Equal(aJson, bJson)
+}
+
 func (p *ProcessConfig) AssignProcessExecutableAndArgs(shellConf *command.ShellConfig, elevatedShellArg string) {
 	if p.Command != "" || len(p.Entrypoint) == 0 {
 		if len(p.Entrypoint) > 0 {
